@@ -142,8 +142,11 @@ class C07(core.Check):
             n = min(n, 600)
             warm = r.choice([0, 0, 1, 2])
             kind = r.choice(['futures', 'futures', 'spot'])
+            # isolated margin at high leverage: the liquidation's position hooks are observation times too
+            # (in the last minute of a window they run before the window's candle is generated)
+            lev = r.choice([25, 50, 100]) if kind == 'futures' and r.random() < 0.4 else None
             out.append({'syms': syms, 'routes': routes, 'droutes': droutes, 'n': max(n, 2), 'warm': warm, 'kind': kind,
-                        'lcm': lcm, 'fast': r.random() < 0.5, 'seed': r.randrange(1 << 30)})
+                        'lcm': lcm, 'fast': r.random() < 0.5, 'seed': r.randrange(1 << 30), 'isolated_leverage': lev})
         return out
 
     def oracle(self, res, boost):
@@ -240,12 +243,14 @@ class C07(core.Check):
                                 problems.append(('stored-1m', s, '1m', hook, strategy.index, {'row': j, 'stored': st, 'input': raw, 'normalised': fixed}))
                                 return
 
-            cfg = bt.config(kind=sess['kind'], balance=100_000, fee=0.0, leverage=2)
+            cfg = bt.config(kind=sess['kind'], balance=100_000, fee=0.0, leverage=sess['isolated_leverage'] or 2,
+                            mode='isolated' if sess['isolated_leverage'] else 'cross')
             cfg['warm_up_candles'] = 0
             tr, result, err = engine.run_session(cfg, sess['routes'], sess['droutes'], cands, scripts, observer=observer,
                                                  warmup=warms or None, fast_mode=sess['fast'])
-            desc = {k: sess[k] for k in ('routes', 'droutes', 'n', 'warm', 'kind', 'fast', 'seed')}
+            desc = {k: sess[k] for k in ('routes', 'droutes', 'n', 'warm', 'kind', 'fast', 'seed', 'isolated_leverage')}
             fills = sum(1 for e in tr.events if e[0] == 'FILL')
+            res.count('liquidations-observed', (tr.final or {}).get('liquidations', 0))
             res.seen(('sess', sess['seed'], sess['fast']), stats['forming'] > 0 or fills > 0)
             res.count('sessions:' + ('fast' if sess['fast'] else 'step'))
             res.count('observations', stats['obs'])
